@@ -344,6 +344,7 @@ class Reader:
             analog -= np.percentile(analog, 10, axis=0)
         if analog is None:
             return digital
+        analog = np.atleast_2d(analog)  # an integer sample selector yields a 1d row
         analog[np.where(analog < threshold)] = 0
         analog[np.where(analog >= threshold)] = 1
         return np.concatenate((digital, np.int8(analog)), axis=1)
